@@ -13,6 +13,7 @@ use std::sync::Mutex;
 use std::time::Instant;
 
 pub mod known;
+pub mod libfuzzer;
 
 #[derive(Clone, Copy, PartialEq, Eq, Debug)]
 pub enum Tier {
